@@ -95,6 +95,15 @@ impl BarAbs {
         let mut lit = String::new();
         while i < t.len() {
             match t[i] {
+                // escaped braces are literal text
+                '{' if i + 1 < t.len() && t[i + 1] == '{' => {
+                    lit.push('{');
+                    i += 2;
+                }
+                '}' if i + 1 < t.len() && t[i + 1] == '}' => {
+                    lit.push('}');
+                    i += 2;
+                }
                 '{' if i + 1 < t.len() && (t[i + 1] == ' ' || t[i + 1] == '\t') => {
                     // an opening brace followed by whitespace stands for itself
                     lit.push('{');
